@@ -2,11 +2,12 @@
 
 PROPS = {
     "C01": {
-        "families": [fam("c01.matchall", 1500, 20000, seeds=4)],
+        "families": [fam("c01.matchall", 1500, 20000, seeds=4), fam("c01.real", 40, 4000, seeds=2), fam("c01.hash", 1000, 20000, seeds=2)],
         "defects": ["D1"],
         "rule": "each op is a whole scenario (1-4 lists, 1-60 parsed network rules with their storage indexes, one request, oracle tables) "
                 "run through the real NetworkEngine.MatchAll, the model engine (shortcut/domain/sequential tables, djb2) and the linear scan; "
-                "answers are sorted sets of rule texts; non-trivial = a non-empty answer; distinct by hash of the op input",
+                "answers are sorted sets of rule texts; non-trivial = a non-empty answer; distinct by hash of the op input. "
+                "c01.real (Go only, a search aid): the real engine over testdata/easylist.txt vs rule.Match over all of its network rules on testdata/requests.json",
     },
     "C02": {
         "families": [fam("c02.dns", 1500, 20000, seeds=4)],
